@@ -943,6 +943,10 @@ where
                 continue;
             }
 
+            // Refresh pool information, something might have changed while the client was idle:
+            // the message is routed and checked by the plugins with the settings of now.
+            pool = self.refresh_pool(&mut query_router).await?;
+
             // Handle all custom protocol commands, if any.
             if self
                 .handle_custom_protocol(&mut query_router, &message, &pool)
@@ -1112,18 +1116,8 @@ where
             // Check if the pool is paused and wait until it's resumed.
             pool.wait_paused().await;
 
-            // Refresh pool information, something might have changed.
-            pool = self.get_pool().await?;
-
-            // A reload may have changed the pool's default role: a client that is still on the
-            // old default (it did not pick a role itself) follows the new one.
-            let previous_default_role = query_router.pool_settings().default_role;
-            query_router.update_pool_settings(&pool.settings);
-            if pool.settings.default_role != previous_default_role
-                && query_router.role() == previous_default_role
-            {
-                query_router.set_default_role();
-            }
+            // Refresh pool information, something might have changed while we were paused.
+            pool = self.refresh_pool(&mut query_router).await?;
 
             debug!("Waiting for connection from pool");
             if !self.admin {
@@ -1782,6 +1776,26 @@ where
             self.release();
             self.stats.idle();
         }
+    }
+
+    /// The pool as it is now (a reload may have replaced it), with the router brought in line with it.
+    async fn refresh_pool(
+        &mut self,
+        query_router: &mut QueryRouter,
+    ) -> Result<ConnectionPool, Error> {
+        let pool = self.get_pool().await?;
+
+        // A reload may have changed the pool's default role: a client that is still on the
+        // old default (it did not pick a role itself) follows the new one.
+        let previous_default_role = query_router.pool_settings().default_role;
+        query_router.update_pool_settings(&pool.settings);
+        if pool.settings.default_role != previous_default_role
+            && query_router.role() == previous_default_role
+        {
+            query_router.set_default_role();
+        }
+
+        Ok(pool)
     }
 
     /// Retrieve connection pool, if it exists.
